@@ -183,8 +183,8 @@ func generate(seed uint64, tier string) ([]string, stats) {
 
 	nRandom := 120
 	if tier == "thorough" {
-		nRandom = 300
-		const capTotal = 1500
+		nRandom = 3000
+		const capTotal = 6000
 		quota := capTotal / len(enumWindows)
 		extra := capTotal - quota*len(enumWindows)
 		for wi, w := range enumWindows {
